@@ -193,23 +193,37 @@ func VerifC12_SampleIdentifier(perm, fmode, rmode int) {
 	vReach("end")
 }
 
-// fixed-position tags: the forward tag is seq[begin-spacer-len : begin-spacer]; the reverse tag is the reverse
-// complement of seq[end+spacer : end+spacer+len]; nothing when the read is too short
-func VerifC12_FixedTags(L, begin, end, spacer int) {
+// fixed-position tags.  On a read in forward orientation the tag before the forward primer is the forward tag
+// (forward length and spacer) and the tag after the reverse primer is the reverse tag; on a read in reverse
+// orientation the roles are exchanged.  The begin tag is seq[begin-spacer-len : begin-spacer]; the end tag is
+// the reverse complement of seq[end+spacer : end+spacer+len]; nothing when the read is too short.  Forward and
+// reverse tags have different lengths (2, 3) and spacers (fsp, rsp); the orientation is symbolic.
+func VerifC12_FixedTags(L, begin, end, fsp, rsp int) {
 	if begin < 0 || begin > end || end > L {
 		vSkip()
 	}
+	forward := vBool()
 	s := vBytes(L, "acgt")
 	seq := obiseq.NewBioSequence("r", s, "")
-	m := &Marker{Forward_tag_length: 2, Reverse_tag_length: 2, Forward_spacer: spacer, Reverse_spacer: spacer}
-	ft := m.beginFixedTagExtractor(seq, begin, true)
-	if begin-spacer-2 < 0 {
+	m := &Marker{Forward_tag_length: 2, Reverse_tag_length: 3, Forward_spacer: fsp, Reverse_spacer: rsp}
+	bl, bsp, el, esp := 2, fsp, 3, rsp
+	if !forward {
+		bl, bsp, el, esp = 3, rsp, 2, fsp
+	}
+	ft := m.beginFixedTagExtractor(seq, begin, forward)
+	if begin-bsp-bl < 0 {
 		vAssert(ft == "", "fixed-forward-tag-absent-when-read-too-short")
 	} else {
-		vAssert(len(ft) == 2 && ft[0] == s[begin-spacer-2] && ft[1] == s[begin-spacer-1], "fixed-forward-tag-window")
+		ok := len(ft) == bl
+		if ok {
+			for i := 0; i < bl; i++ {
+				ok = ok && ft[i] == s[begin-bsp-bl+i]
+			}
+		}
+		vAssert(ok, "fixed-forward-tag-window")
 	}
-	rt := m.endFixedTagExtractor(seq, end, true)
-	if end+spacer+2 > L {
+	rt := m.endFixedTagExtractor(seq, end, forward)
+	if end+esp+el > L {
 		vAssert(rt == "", "fixed-reverse-tag-absent-when-read-too-short")
 	} else {
 		comp := func(c byte) byte {
@@ -223,7 +237,31 @@ func VerifC12_FixedTags(L, begin, end, spacer int) {
 			}
 			return 'a'
 		}
-		vAssert(len(rt) == 2 && rt[0] == comp(s[end+spacer+1]) && rt[1] == comp(s[end+spacer]), "fixed-reverse-tag-is-revcomp-of-window")
+		ok := len(rt) == el
+		if ok {
+			for i := 0; i < el; i++ {
+				ok = ok && rt[i] == comp(s[end+esp+el-1-i])
+			}
+		}
+		vAssert(ok, "fixed-reverse-tag-is-revcomp-of-window")
+	}
+	vReach("end")
+}
+
+// CheckTagLength: the tag lengths of a marker are those of its samples' tags - forward and reverse
+// independently, absent tags (length 0) included; samples that disagree are refused
+func VerifC12_TagLength(lf, lr, lf2, lr2 int) {
+	tagsF := vBytes(lf, "ac")
+	tagsR := vBytes(lr, "ac")
+	m := &Marker{samples: map[TagPair]*PCR{}}
+	m.samples[TagPair{Forward: string(tagsF), Reverse: string(tagsR)}] = &PCR{}
+	other := TagPair{Forward: string(append(make([]byte, 0), []byte("ggggg")[:lf2]...)), Reverse: string([]byte("ttttt")[:lr2])}
+	m.samples[other] = &PCR{}
+	err := m.CheckTagLength()
+	if lf == lf2 && lr == lr2 {
+		vAssert(err == nil && m.Forward_tag_length == lf && m.Reverse_tag_length == lr, "taglength-forward-and-reverse-lengths-are-those-of-the-samples")
+	} else {
+		vAssert(err != nil, "taglength-samples-with-different-tag-lengths-are-refused")
 	}
 	vReach("end")
 }
